@@ -1,5 +1,6 @@
 """C10 - DMRG (structural part)."""
 import ast
+from ..defuse import before as _before
 
 from ..loader import norm, AnalysisError
 from ..effects import Engine
@@ -110,7 +111,7 @@ def energy_rule(chk, repo, rid, q):
         wname = last.value.value.id
         src = [n for s_ in o.body for n in ast.walk(s_) if isinstance(n, ast.Assign) and isinstance(n.value, ast.Call) and
                norm(n.value.func) == 'eigh_krylov' and isinstance(n.targets[0], ast.Tuple) and
-               norm(n.targets[0].elts[0]) == wname and n.lineno <= last.lineno]
+               norm(n.targets[0].elts[0]) == wname and _before(fi.node, n, last, strict=False)]
         if src:
             ok = True
             last = src[-1]
